@@ -72,6 +72,12 @@ def make_profile(rng, kind=None, scale=None):
         base = [abs(x) * 0.5 + 1000.0 for x in atlanta_loads()]
     elif kind == "cooling_only":
         base = [-abs(x) * 0.5 - 1000.0 for x in atlanta_loads()]
+    elif kind == "cooling_seasonal":
+        # a plant that is OFF (exactly zero load) from October to April
+        base = [(-abs(x) * 0.6 - 500.0) if 2880 <= h < 6552 else 0.0 for h, x in enumerate(atlanta_loads())]
+    elif kind == "heating_seasonal":
+        # a plant that is OFF (exactly zero load) from May to September
+        base = [(abs(x) * 0.6 + 500.0) if not (2880 <= h < 6552) else 0.0 for h, x in enumerate(atlanta_loads())]
     else:
         raise ValueError(kind)
     if scale is None:
